@@ -139,6 +139,7 @@ def run(ck):
     va = S.build_thr('c09-sched-asan', san='asan')
     vt = S.build_thr('c09-sched-tsan', san='tsan')
     vf = S.build_thr('c09-schedfn-asan', san='asan', fn=True)
+    vio = S.build_thr('c09-schedio-asan', san='asan', io=True)
     # determinism: replay one non-trivial schedule twice and require identical observations
     x0 = S.run_one(va['h_thr'], os.path.join(ck.workdir, 'det0'), CFG_LOG, 2, 1, 'calls', [])
     pre = [p['c'] for p in x0.points[:20]] + [1]
@@ -159,6 +160,9 @@ def run(ck):
         ('hashed-asan-2x1', va, 'asan', False, CFG_LOG, 2, 1, 'hashed', False),
         ('hashed-tsan-2x1', vt, 'tsan', False, CFG_LOG, 2, 1, 'hashed', False),
         ('hashed-asan-2x2', va, 'asan', False, CFG_LOG, 2, 2, 'hashed', False),
+        # write/writev/close issued by snoopy are scheduling points too: two threads' file appends interleaved at system-call granularity (C17 for threads)
+        ('io-asan-2x1', vio, 'asan', False, CFG_LOG, 2, 1, 2, False),
+        ('io-hashed-asan-2x1', vio, 'asan', False, CFG_LOG, 2, 1, 'hashed', False),
         ('fn-asan-2x1', vf, 'asan', True, CFG_LOG, 2, 1, 1, False),
         ('fn-asan-drop-2x1', vf, 'asan', True, CFG_DROP, 2, 1, 1, True),
     ]
